@@ -4,4 +4,10 @@ ALL = ["C%02d" % i for i in range(1, 21) if i != 6]
 
 
 def load(pid):
-    return importlib.import_module("sa.props.%s" % pid.lower())
+    mod = importlib.import_module("sa.props.%s" % pid.lower())
+    if not getattr(mod, "_shared_rules_added", False):
+        from ..shared import slot_rule
+
+        mod.RULES.append(slot_rule(mod.ID))
+        mod._shared_rules_added = True
+    return mod
